@@ -23,7 +23,7 @@ import (
 )
 
 func TestMain(m *testing.M) {
-	vh.Rule("round trips: rapid-generated values of dsn.Info, tds.Info, Ext (embedded dsn.Info + string/int/bool members with json/multiref tags) and ExtScheme (Ext embedded once more + scheme); text fields are token sequences (letters, runs of spaces, '=', every URI metacharacter, '%', '+', %-escapes, \"KEY\", non-ASCII, for the URI form also quotes, backslash, control characters and rapid.String() over all of Unicode; for the simple form strconv.IsPrint runes without quote/backslash, with leading/trailing/multiple/only spaces); host = DNS label, port = digits or empty (nothing is claimed about them); ints from {0, small, negative, MinInt64, MaxInt64}. Override order: hand-written simple DSNs of 2..9 assignments over every alias of every key with at least one field assigned twice (same key or different aliases), quoted with \", ' or bare; URIs with a key repeated 2..3 times interleaved with others. Unknown keys: near misses of real keys, random identifiers and the empty key at any position, both forms, three target types. Totality: every string over the 14-symbol alphabet {\" ' space = a p : / ? & % @ # \\} (a and p are real keys of Ext) up to length 5 (6 thorough), key=/quote prefixes x every string up to length 4 (5), every string over {\" ' space = a} up to length 8 (10), random strings up to 40 bytes, mutated valid DSNs. Non-trivial: a text value contains a space, '=', a URI metacharacter or a non-ASCII rune; for totality the string contains a quote or '='. Distinct by the JSON of the case / by the string")
+	vh.Rule("round trips: rapid-generated values of dsn.Info, tds.Info, Ext (embedded dsn.Info + string/int/bool members with json/multiref tags) and ExtScheme (Ext embedded once more + scheme); text fields are token sequences (letters, runs of spaces, '=', every URI metacharacter, '%', '+', %-escapes, \"KEY\", non-ASCII, for the URI form also quotes, backslash, control characters and rapid.String() over all of Unicode; for the simple form strconv.IsPrint runes without quote/backslash, with leading/trailing/multiple/only spaces); host = DNS label, port = digits or empty (nothing is claimed about them); ints from {0, small, negative, MinInt64, MaxInt64}. Override order: hand-written simple DSNs of 2..9 assignments over every alias of every key with at least one field assigned twice (same key or different aliases), quoted with \", ' or bare; URIs with a key repeated 2..3 times interleaved with others. Unknown keys: near misses of real keys, random identifiers and the empty key at any position, both forms, three target types. Totality: every string over the 14-symbol alphabet {\" ' space = a p : / ? & % @ # \\} (a and p are real keys of Ext) up to length 5 (6 thorough), key=/quote prefixes x every string up to length 4 (5), every string over {\" ' space = a} up to length 8 (10), random strings up to 40 bytes, mutated valid DSNs. Non-trivial: a text value contains a space, '=', a URI metacharacter or a non-ASCII rune; for totality the string contains a quote or '='; an unknown-key case counts when the key is empty or a near miss of a real key. Distinct by the JSON of the case / by the written DSN string")
 	vh.Assume("net/url escaping (url.QueryEscape, url.UserPassword) is trusted when the override/unknown-key checks write URIs by hand; reflect and encoding/json are trusted; the alias table of each target type is written by hand from the struct tags")
 	vh.Assume("simple-form domain = what strconv.Quote leaves unescaped (strconv.IsPrint) minus ' \" ` and backslash: FormatSimple writes values with %q and ParseSimple documents plain surrounding quotes without escape processing, so anything %q escapes (control, format, non-ASCII space characters) is outside the claim")
 	vh.Assume("URI form: ParseURI never fills a `scheme` member and Parse only recognises a URI by \"://\"; dsn.Info/tds.Info have no scheme, so their FormatURI output (\"//user:...\", pinned by the library's tests) is parsed back with ParseURI; Parse is exercised on ExtScheme, whose scheme member is not compared")
@@ -567,7 +567,7 @@ func runURI(c uriCase) *vh.Failure {
 
 func TestURIRoundTrip(t *testing.T) {
 	gen := func(rt *rapid.T) uriCase { return uriCase{V: genVal(rt, uriText, false)} }
-	vh.Check(t, "TestURIRoundTrip", vh.N(20000, 1500000), gen, runURI)
+	vh.Check(t, "TestURIRoundTrip", vh.N(20000, 1000000), gen, runURI)
 }
 
 // ---------------------------------------------------------------- (2) simple round trip
@@ -632,7 +632,7 @@ func runSimple(c simpleCase) *vh.Failure {
 
 func TestSimpleRoundTrip(t *testing.T) {
 	gen := func(rt *rapid.T) simpleCase { return simpleCase{V: genVal(rt, simpleText, true)} }
-	vh.Check(t, "TestSimpleRoundTrip", vh.N(25000, 1500000), gen, runSimple)
+	vh.Check(t, "TestSimpleRoundTrip", vh.N(25000, 1000000), gen, runSimple)
 }
 
 // ---------------------------------------------------------------- string cases
